@@ -609,6 +609,107 @@ def check_field_arrays(chk, v, f, rel, fext, earr):
                 key = "%s: %s[%s] stays inside the array (%s elements)" % (f.name, sym.show(base)[:50], re.sub(r"\bu\d+@", "u@", sym.show(e))[:40], sym.show(R(extent))[:40])
                 chk.ob("R10", key, {"proved": "proved", "refuted": "refuted"}.get(s_, "assumed"), where="%s:%s" % (f.file, x.get("l")),
                        detail="index up to %s: %s" % (sym.show(rng[1])[:60], d_[:160]), variant=v.name)
+    # bottom-tested loops: the first iteration runs whatever the bound says (`do *dst++ = *src; while (++src < end);` with src == end)
+    def has_do(fn_, depth=0):
+        from sa.facts import walk as _walk
+        for nd in _walk(fn_.d.get("body")):
+            if nd.get("k") == "do":
+                return True
+            if depth < 2 and nd.get("k") == "call" and nd.get("cusr") in v.defs:
+                g_ = v.defs[nd["cusr"]]
+                if g_.get("static") and not g_.get("record") and has_do(g_, depth + 1):
+                    return True
+        return False
+    if has_do(f):
+        n += first_iteration_subscripts(chk, v, f, roots, fext, earr, R, rec_of)
+    return n
+
+
+def first_iteration_subscripts(chk, v, f, roots, fext, earr, R, rec_of):
+    """Statements inside a bottom-tested counted loop (and in no other loop): the subscripts of object-owned arrays at the loop's
+    FIRST iteration, which executes even when the range is empty.  Decided by a search for a concrete witness: small values of the
+    dimensions (1..3) and of the function's integer parameters (0..7) that satisfy the function's assertions and the statement's
+    path conditions and put the subscript outside [0, extent).  No witness on the grid -> proved on the grid (stated)."""
+    import itertools as _it
+    from sa import concrete, summ
+    ps, _ = summ.pieces(v, f, hooks=summ.LOCAL_HELPERS)
+    # the function's contract: its assertions -- compiled out of the optim build, read from the debug variant of the same function
+    contract = []
+    try:
+        dv_ = v.prog.variant("debug", v.backend)
+        fd_ = dv_.fn(f.name, required=False)
+        if fd_ is not None:
+            for q_ in summ.pieces(dv_, fd_, hooks=summ.LOCAL_HELPERS)[0]:
+                for c_ in q_.get("pre") or []:
+                    if c_ not in contract:
+                        contract.append(c_)
+    except Exception:
+        contract = []
+    n = 0
+    seen = set()
+    iparams = [sym.sym(p_["n"]) for p_ in f.params if p_["t"].replace("const ", "").strip() in ("int", "int32_t", "long", "unsigned int")]
+    for p in ps:
+        if p["kind"] not in ("store", "local") or len(p["loops"]) != 1 or not p["loops"][0].get("at_least_once") or "var" not in p["loops"][0]:
+            continue
+        lp = p["loops"][0]
+        for t in (p.get("lv"), p.get("val")):
+            if not isinstance(t, tuple):
+                continue
+            addressed = {a_[1] for a_ in sym.subterms(t) if a_[0] == "addr"}
+            for st_ in sym.subterms(t):
+                if st_[0] != "idx" or st_[1][0] != "fld" or st_ in addressed:
+                    continue
+                base, e = st_[1], st_[2]
+                if not sym.contains(e, lp["var"]) or (base, e) in seen or bounds._has_unk(e):
+                    continue
+                extent = bounds.field_array_extent(v, base, roots, fext, earr)
+                if extent is None or bounds._has_unk(extent):
+                    continue
+                seen.add((base, e))
+                def conv(x_):
+                    y_ = to_roles(R(x_), rec_of)[0]
+                    # (every polynomial of one call has the ring degree of the parameter set: their own N fields are the role N)
+                    return sym.rewrite(y_, {a_: sym.sym("N") for a_ in sym.atoms(y_) if a_[0] == "fld" and a_[2] == "N"})
+                e0 = conv(sym.subst(e, {lp["var"]: lp["lo"]}))
+                ext = conv(extent)
+                conds = [conv(g_) for g_ in p["guards"]] + [conv(c_) for c_ in (p.get("pre") or [])] + [conv(c_) for c_ in contract]
+                atoms = []
+                for t2 in [e0, ext] + conds:
+                    for a_ in sym.atoms(t2):
+                        if a_ not in atoms and (a_[0] == "fld" or a_ in iparams or (a_[0] == "sym" and a_[1] in ("N", "k", "l", "n_in"))):
+                            atoms.append(a_)
+                dims = [a_ for a_ in atoms if a_ not in iparams]
+                pars = [a_ for a_ in atoms if a_ in iparams]
+                if len(dims) > 3 or len(pars) > 2:
+                    continue
+                wit = None
+                undecided = False
+                for dv in _it.product((1, 2, 3), repeat=len(dims)):
+                    for pv in _it.product(range(0, 8), repeat=len(pars)):
+                        env = dict(zip(dims, dv))
+                        env.update(zip(pars, pv))
+                        cv = [concrete.eval_term(c_, env) for c_ in conds]
+                        if any(x_ is None for x_ in cv):
+                            undecided = True
+                            continue
+                        if not all(cv):
+                            continue
+                        iv, xv = concrete.eval_term(e0, env), concrete.eval_term(ext, env)
+                        if iv is None or xv is None:
+                            undecided = True
+                            continue
+                        if not 0 <= iv < xv:
+                            wit = "with %s: the first iteration of the bottom-tested loop at line %s runs although its range is empty or not, and accesses element %d of %d" % (
+                                ", ".join("%s = %d" % (sym.show(a_), env[a_]) for a_ in dims + pars), lp.get("l"), iv, xv)
+                            break
+                    if wit:
+                        break
+                n += 1
+                key = "%s: %s[%s] at the first iteration of the bottom-tested loop stays inside the array" % (f.name, sym.show(base)[:50], re.sub(r"\b\w+#@", "p@", sym.show(e))[:40])
+                status = "refuted" if wit else ("assumed" if undecided else "proved")
+                chk.ob("R10", key, status, where="%s:%s" % (f.file, p.get("line")),
+                       detail=wit or "no admissible values of the dimensions (1..3) and integer parameters (0..7) put the first-iteration subscript outside the array",
+                       variant=v.name)
     return n
 
 
